@@ -27,6 +27,12 @@ STORES = {
 }
 
 PROPS = {
+    "C18": {
+        "tiers": tiers(3000, 100000),
+        "rule": "rapid-generated message log (1-40 insert/update/delete/reset/snapshot-start/snapshot-end messages built with the public helpers over three registered entity types - one with a custom state type name, values with omitempty fields and maps - plus an unregistered type, keys including several that contain the separator), published on a persistent bus (MemoryStore or SQLite; streaming or paged with batch 1-5), strict or non-strict materializer, consumed by Materializer.Replay in 1-3 sessions: each but the last is interrupted by an injected store read failure after a drawn number of events and the next resumes from LastOffset; compared with a last-writer-wins fold and with a twin materializer that applies the log in one session. Non-trivial: more than one message; distinct = (scenario, history hash).",
+        "components": dict(REAL_BUS, **STORES),
+        "assumptions": COMMON_ASSUME + ["sessions run on one materializer and its collections (state is in memory; a crashed process would rebuild from the oldest offset)"],
+    },
     "C17": {
         "tiers": tiers(3000, 100000),
         "level": "fault_enumeration",
